@@ -100,7 +100,7 @@ def main(argv):
         core.write_evidence(prop_id, tier, seed, getattr(mod, "LEVEL", "exploration"), mod.RULE, total, wall,
                             getattr(mod, "ASSUMPTIONS", []), len(seen), extra)
         print(f"{prop_id} {tier} seed={seed}: evaluations={total.evaluations} distinct_nontrivial="
-              f"{len(total.nontrivial)} violations={len(seen)} known_skipped={sum(total.known.values())} "
+              f"{len(total.nontrivial) + total.nt_extra} violations={len(seen)} known_skipped={sum(total.known.values())} "
               f"wall={wall:.1f}s")
         if seen:
             for clause, v in seen.items():
